@@ -10,6 +10,7 @@ from __future__ import annotations
 import itertools
 import json
 import logging
+import os
 
 from .. import e2, e3
 from .. import universe as U
@@ -116,6 +117,70 @@ def explore_cfg(args):
             'capped': st.capped, 'delivered_sets': len(outcomes), 'viols': viols, 'cfg': cfg.brief()}
 
 
+def real_dump(cfg_json: str, backend: str, mw: str, storage_dir: str):
+    """Isolated interpreter: the same harness on the real fork / spawn backend."""
+    import labtech
+    from ..spec import Built
+    silence_labtech()
+    cfg = e2.Config.from_json(json.loads(cfg_json))
+    spec = cfg.spec
+    emit = {spec.labels[i]: pat for i, pat in cfg.emit}
+    os.environ['VERIF_EMIT'] = json.dumps({str(k): v for k, v in emit.items()})
+    os.environ['VERIF_FAULTS'] = ','.join(str(spec.labels[i]) for i in cfg.faults)
+    U.WORLD.reset(epoch=1, faults=[spec.labels[i] for i in cfg.faults], emit=emit)
+    from labtech.utils import logger
+    h = Collect()
+    logger.handlers = [h]
+    logger.setLevel(logging.INFO)
+    logger.propagate = False
+    built = Built(spec)
+    lab = labtech.Lab(storage=storage_dir, runner_backend=backend, max_workers=int(mw), notebook=False)
+    import contextlib, io
+    with contextlib.redirect_stderr(io.StringIO()):
+        res = lab.run_tasks(list(built.canon), disable_progress=True, disable_top=True)
+    print(json.dumps({'returned': len(res), 'msgs': h.msgs}))
+
+
+def real_case(args):
+    cfg, backend, mw = args
+    import shutil
+    import sys
+    import tempfile
+    from types import SimpleNamespace
+    from ..realrun import py_env, run_isolated
+    tmp = tempfile.mkdtemp(prefix='c19r_')
+    try:
+        rc, so, se = run_isolated([sys.executable, '-m', 'verif_lt.props.c19', '--real', json.dumps(cfg.to_json()), backend, str(mw), os.path.join(tmp, 'st')],
+                                  env=py_env(1), timeout=180)
+        if rc != 0:
+            raise HarnessError(f'real C19 run failed ({rc}): {se[-600:]}')
+        o = json.loads(so.strip().splitlines()[-1])
+        fake_cfg = SimpleNamespace(spec=cfg.spec, base=cfg, backend=backend)
+        obs = SimpleNamespace(outcome=('return', {}))
+        out = oracle(fake_cfg, obs, o['msgs'])
+        return [(f'{backend}:real:{k}', f'[real {backend} backend, max_workers={mw}] {m} | cfg={cfg.brief()}') for k, m in out]
+    finally:
+        shutil.rmtree(tmp, ignore_errors=True)
+
+
+def _real(a):
+    return real_case(a)
+
+
+def real_cases(tier: str):
+    out = []
+    pats = [('log', 'print'), ('print+flush+print+flush', 'log+print+err+eflush'), ('print', 'print'), ('nprint+iprint', 'exc'), ('wprint', 'eprint')]
+    for pa, pb in pats:
+        for shape in [((), ()), ((), (0,))]:
+            base = e2.Config(spec=mk_spec(shape), requested=((0, False), (1, False)), emit=((0, pa), (1, pb)))
+            for be in ('fork', 'spawn'):
+                for mw in ((1, 2) if tier != 'quick' else (2,)):
+                    out.append((base, be, mw))
+    base = e2.Config(spec=mk_spec(((), ())), requested=((0, False), (1, False)), emit=((0, 'print+err'), (1, 'log')), faults=(0,))
+    out += [(base, 'fork', 2), (base, 'spawn', 1)]
+    return out
+
+
 def configs(tier: str):
     out = []
     shapes2 = [((), ()), ((), (0,))]
@@ -170,8 +235,18 @@ def run(tier: str, seed: int) -> Result:
         viols.extend(r['viols'])
         if len(samples) < 3:
             samples.append({'cfg': r['cfg'], 'schedules': r['executions'], 'distinct_delivered_record_sets': r['delivered_sets']})
+    # the same harnesses on the real fork / spawn backends: their delivered-record multiset must be the
+    # complete one (the only member of the set E3 enumerates on a tree where the property holds)
+    rcs = real_cases(tier)
+    n_real_ok = 0
+    for res in pmap(_real, rcs):
+        if not res:
+            n_real_ok += 1
+        for key, msg in res:
+            viols.append(Violation('C19', key, msg, {'clause': key, 'real': True}, size=3000))
     cov = {
-        'states': states, 'transitions': trans, 'traces_validated_against_impl': 0, 'samples': samples,
+        'states': states, 'transitions': trans, 'traces_validated_against_impl': n_real_ok, 'samples': samples,
+        'real_fork_spawn_runs': len(rcs),
         'evaluations': ex, 'distinct_nontrivial': len(cfgs),
         'rule': ('2 tasks (independent / chained) x every pair of emit patterns x fork/spawn x max_workers {1,2} (thorough: 3 tasks, 3 shapes), every schedule of '
                  'result delivery AND log-queue delivery (each parent-side get on an empty queue chooses which child, if any, has progressed to its next put); '
@@ -192,6 +267,11 @@ def run(tier: str, seed: int) -> Result:
 
 def replay(payload) -> int:
     silence_labtech()
+    if payload.get('real'):
+        r = run('quick', 0)
+        keys = sorted({v.key for v in r.violations})
+        print('violation keys now:', keys)
+        return 1 if payload.get('clause') in keys else 0
     cfg = e3.E3Config.from_json(payload['cfg'])
     obs, msgs = run_one(cfg, Chooser(payload['choices']))
     print('cfg', cfg.brief())
@@ -203,3 +283,9 @@ def replay(payload) -> int:
     for k, m in found:
         print(' ', k, m)
     return 1 if found else 0
+
+
+if __name__ == '__main__':
+    import sys
+    if len(sys.argv) >= 6 and sys.argv[1] == '--real':
+        real_dump(sys.argv[2], sys.argv[3], sys.argv[4], sys.argv[5])
